@@ -333,6 +333,7 @@ class ActiveResult(Result):
                 x = xr.concat(
                     [select_theta(self.data, t, drop=True, **kwargs) for t in theta], pd.Index(theta, name="theta_inc")
                 )
+                theta = x.theta_inc  # so that the cosine factor below is applied along the theta_inc dimension
             else:
                 x = select_theta(self.data, theta, drop=True, **kwargs)
 
